@@ -758,6 +758,7 @@ bool TypeAuditor::ViRecursion(Cursor iter) {
 
   { 
     const auto guard = noWarnings.CreateGuard();
+    auto typeDeduced = false;
     for (auto retries = typeDeductionDepth; retries > 0; --retries) {
       ClearLocalVariables();
       if (!VisitChildDeclaration(iter, 0, std::get<Typification>(iterationValue.value()))) {
@@ -768,9 +769,19 @@ bool TypeAuditor::ViRecursion(Cursor iter) {
         return false;
       }
       if (std::get<Typification>(newIteration.value()) == std::get<Typification>(iterationValue.value())) {
+        typeDeduced = true;
         break;
       }
       iterationValue = newIteration;
+    }
+    if (!typeDeduced) {
+      OnError(
+        SemanticEID::typesNotEqual,
+        iter(iterationIndex).pos.start,
+        iterationValue.value(),
+        initType.value()
+      );
+      return false;
     }
   }
 
